@@ -26,10 +26,18 @@ def gen_cases(tier, seed):
         r = random.Random(env.seed_for(s, "descriptor"))  # independent of the stream run_case derives from the same seed
         out.append({"seed": s, "n": r.randint(2, 22 if tier == "quick" else 55), "steps": r.randint(3, 12 if tier == "quick" else 22),
                     "all_normalising": True, "perturbs": ["line", "instr", "none"], "cfg": {"p_store": r.choice([0.5, 0.8])}})
+    # "downstream of a rebuilt value is rebuilt in the same run" under single-preemption enumeration of the STALE CHECK: a join of two sources above a stored
+    # value whose other stored input is being rebuilt and answers slowly (vmon/preempt.py, run_stale_join_then)
+    for W in ((3,) if tier == "quick" else (3, 4, 8)):
+        out.append({"seed": env.seed_for(seed, ID, tier, "stale_join_then", W), "mode": "preempt_stale_join", "W": W})
     return out
 
 
 def run_case(desc):
+    if desc.get("mode") == "preempt_stale_join":
+        from vmon import preempt
+
+        return preempt.enumerate_stale_join_then(desc)
     return histcheck.run_case(desc, "C09", ("C09",), "c09_rebuilt_with_executing_consumer")
 
 
@@ -38,6 +46,8 @@ def finalize(agg, tier):
     reasons = []
     if c["c09_rebuilt_with_executing_consumer"] < 100:
         reasons.append("fewer than 100 rebuilt values with an executing consumer")
+    if c["preempt_stale_join_holds_other_completed"] < 50:
+        reasons.append("stale-check preemption (join_then): fewer than 50 holds during which the other source's worker completed its bookkeeping")
     if c["c09_normalising_identity_checks"] < 200:
         reasons.append("fewer than 200 identity checks against normalising stores")
     return reasons
